@@ -37,7 +37,16 @@ func runPhased(r *Run, in *epochInput) historyResult {
 	if in.Prop == "C08" {
 		checkInitialSpeciation(pop, conf, compat, bad)
 	}
+	shrunk := false
+	everSpecies := map[int]bool{} // ids of all species this population ever had
+	for _, sp := range pop.Species {
+		everSpecies[sp.Id] = true
+	}
 	for ep := 0; ep < in.Epochs; ep++ {
+		if in.ShrinkPop > 0 && ep == in.ShrinkAt && conf.PopSize-in.ShrinkPop >= 3 {
+			conf.PopSize -= in.ShrinkPop
+			shrunk = true
+		}
 		for j, o := range pop.Organisms {
 			o.Fitness = fitnessFor(in.FitRule, ep, j, o.Genotype)
 		}
@@ -235,6 +244,9 @@ func runPhased(r *Run, in *epochInput) historyResult {
 		}()
 		if rerr != nil {
 			res.err = rerr
+			if shrunk {
+				break // the caller lowered the PopSize option under a larger population: refusing is fine
+			}
 			key := "reproduce-error"
 			if in.FitRule == 7 && strings.Contains(rerr.Error(), "progeny size") {
 				key = "subnormal-fitness-quota-overshoot"
@@ -248,6 +260,21 @@ func runPhased(r *Run, in *epochInput) historyResult {
 		if err := genetics.VFinalize(ex, conf, pop); err != nil {
 			res.err = err
 			break
+		}
+		if in.Prop == "C08" {
+			// a species founded in this turnover gets an id no species of this population ever had
+			living := map[int]bool{}
+			for _, sp := range allSpecies {
+				living[sp.Id] = true
+			}
+			for _, sp := range pop.Species {
+				if !living[sp.Id] && everSpecies[sp.Id] {
+					bad("species-id-not-fresh", fmt.Sprintf("epoch %d: the species founded with id %d reuses the id of an earlier, extinct species of this population", ep, sp.Id))
+				}
+			}
+			for _, sp := range pop.Species {
+				everSpecies[sp.Id] = true
+			}
 		}
 		if in.Prop == "C10" {
 			for _, c := range champs {
